@@ -121,9 +121,18 @@ def to_hol(kind, e):
     from kernel import term
     from kernel.term import Var, Nat, Int, Real, Const
     from kernel.type import NatType, IntType, RealType, TFun
+    hi = kind.endswith('H')
+    if hi:
+        kind = kind[:-1]
     T = {'nat': NatType, 'int': IntType, 'real': RealType}[kind]
     N = {'nat': Nat, 'int': Int, 'real': Real}[kind]
     k = e[0]
+    if k == 'v' and hi:
+        from kernel.term import Abs, Bound
+        proj = Abs('u', T, Abs('v', T, Bound(1 if e[1] == 'x' else 0)))
+        return Var('F', TFun(TFun(T, TFun(T, T)), T))(proj)
+    if hi and k not in ('n', 'half'):
+        kind = kind + 'H'
     if k == 'v':
         return Var(e[1], T)
     if k == 'n':
@@ -216,6 +225,15 @@ def groups(tier):
             gs.setdefault(pkey(poly(e)), []).append(e)
         for key, ms in sorted(gs.items(), key=lambda kv: repr(kv[0])):
             # big groups are split; the first member is repeated so that the pieces stay comparable
+            for i in range(0, len(ms), 60):
+                out.append(['arith', kind, [ms[0]] + ms[i:i + 60]])
+    # the same small expressions over compound atoms that differ only in a bound-variable index:
+    # x := F (%u v. u), y := F (%u v. v)   (the term order must still separate them)
+    for kind in ('natH', 'realH'):
+        gs = {}
+        for e in arith_exprs(kind[:-1], 1) + product_trees():
+            gs.setdefault(pkey(poly(e)), []).append(e)
+        for key, ms in sorted(gs.items(), key=lambda kv: repr(kv[0])):
             for i in range(0, len(ms), 60):
                 out.append(['arith', kind, [ms[0]] + ms[i:i + 60]])
     for op in ('and', 'or'):
@@ -315,8 +333,9 @@ def run_group(case, tier):
     if g[0] == 'arith':
         kind, ms = g[1], g[2]
         from data import nat, integer, real
-        cv = {'nat': nat.norm_full, 'int': integer.int_norm_conv, 'real': real.real_norm_conv}[kind]()
-        name = {'nat': 'nat.norm_full', 'int': 'integer.int_norm_conv', 'real': 'real.real_norm_conv'}[kind]
+        base = kind[:-1] if kind.endswith('H') else kind
+        cv = {'nat': nat.norm_full, 'int': integer.int_norm_conv, 'real': real.real_norm_conv}[base]()
+        name = {'nat': 'nat.norm_full', 'int': 'integer.int_norm_conv', 'real': 'real.real_norm_conv'}[base]
         first = None
         for e in ms:
             t = to_hol(kind, e)
